@@ -149,7 +149,10 @@ class Run(ExtraOps):
             if entry is not None:
                 entry.taint.add(base)
             if base in self.armed or not self.profile.known_gate or os.environ.get('RELSIM_NOGATE'):
-                self.known_hits[base] += 1
+                if prop == self.profile.prop:
+                    self.known_hits[base] += 1      # would have been reported by this check
+                else:
+                    self.stats["known_seen:" + base] += 1
                 self.logev("known", kind, base)
                 return
             v["would_be_finding"] = base
@@ -687,6 +690,7 @@ class Run(ExtraOps):
         for ent in self.pool:
             for node in walk(ent.rel):
                 if isinstance(node, MarkerRelation):
+                    self.stats["payload_nodes_checked"] += 1
                     tok = self.w.token(node.payload)
                     k = id(node)
                     old = self.payload_ledger.get(k)
@@ -705,6 +709,7 @@ class Run(ExtraOps):
         for idx, ent in enumerate(self.pool):
             if ent.alias:
                 continue
+            self.stats["fingerprints_checked"] += 1
             try:
                 fp = fingerprint(self.w, ent.rel)
             except Exception as e:  # noqa
